@@ -69,6 +69,12 @@ def st_Expr(ex, st, s, cx):
 def st_Return(ex, st, s, cx):
     if s.value is None:
         return [('return', st, NONE_SV)]
+    if is_empty_container(s.value):
+        from .calls import return_type
+        rt = return_type(ex, cx.fi, cx.contract if cx.root is cx else ex.reg.primary(cx.fi.key))
+        if rt is not None and (rt.kind in ('list', 'dict', 'set') or (rt.kind == 'opt' and rt.args[0].kind in ('list', 'dict', 'set'))):
+            s2, r = new_empty(ex, st, rt)
+            return [('return', s2, r)]
     return ex.ev(st, s.value, cx, lambda s2, v: [('return', s2, v)])
 
 
